@@ -23,6 +23,7 @@ pub fn plan() -> Plan {
     p.max_connections = 6;
     // a client holding a plain and a shared subscription on one filter is parked twice in one log
     p.shared_pm = 200;
+    p.twin_pm = 250;
     p.ops = (30, 140);
     p.burst_pm = 40;
     let mut single = p.clone();
@@ -32,7 +33,7 @@ pub fn plan() -> Plan {
     Plan {
         profiles,
         directed: vec![],
-        quick_histories: 500,
+        quick_histories: 2000,
         thorough_histories: 80000,
         s5: Some((2, 30, s4common::s5_default(true, 0))),
         enumerate_session_end: None,
